@@ -200,6 +200,27 @@ def check_order(ctx: Context, rep, rule: str) -> None:
             rep.ob(rule, order is None or const_str(order) == "C",
                    loc=fn.loc(c), where=fn.qualname, construct=short(c),
                    message="bytes are dumped in C order")
+    flats = [c for c in fn.calls() if isinstance(c.func, ast.Attribute) and
+             c.func.attr in ("flatten", "ravel") or ctx.is_call(
+                 fn, c, "numpy.ravel")]
+    rep.ob(rule, bool(flats), loc=fn.loc(), where=fn.qualname,
+           construct="value is flattened before the dump",
+           message="a flattening step exists")
+    for c in flats:
+        order = ctx.arg(c, 0 if isinstance(c.func, ast.Attribute) else 1,
+                        "order")
+        rep.ob(rule, order is None or const_str(order) == "C", loc=fn.loc(c),
+               where=fn.qualname, construct=short(c),
+               message="flattening follows the logical (C) index order, not "
+               "the memory layout of the caller's array (order A/K/F would "
+               "permute Fortran-ordered or transposed inputs)")
+    for c in fn.calls():
+        if isinstance(c.func, ast.Attribute) and c.func.attr == "reshape" or \
+                ctx.is_call(fn, c, "numpy.reshape"):
+            order = ctx.arg(c, None, "order")
+            rep.ob(rule, order is None or const_str(order) == "C",
+                   loc=fn.loc(c), where=fn.qualname, construct=short(c),
+                   message="writer-side reshape uses C order")
     # endianness: evaluate the normalisation
     for bo in ("=", "<", ">", "|"):
         for sysbo in ("little", "big"):
@@ -608,6 +629,10 @@ SELFTESTS = [
     dict(rule="C01.cast", name="gate-only-warns", expect="fire", path=_FBW,
          old="            raise ValueError(f\"Cannot cast value of dtype {value_np.dtype} \"\n                             f\"passed as {attribute = }\")\n",
          new="            print(f\"Cannot cast value of dtype {value_np.dtype}\")\n"),
+    dict(rule="C01.order", name="ravel-memory-order", expect="fire", path=_FBW,
+         old="value_np = np.copy(value).flatten()", new="value_np = np.copy(value).ravel(order=\"K\")"),
+    dict(rule="C01.order", name="ravel-c-twin", expect="silent", path=_FBW,
+         old="value_np = np.copy(value).flatten()", new="value_np = np.copy(value).ravel()"),
     dict(rule="C01.order", name="fortran-dump", expect="fire", path=_FBW,
          old='tobytes(order="C")', new='tobytes(order="F")'),
     dict(rule="C01.order", name="drop-big-endian-swap", expect="fire", path=_FBW,
